@@ -218,6 +218,16 @@ func runRace(t *testing.T, c Case, emit func(Result)) (res Result) {
 	return
 }
 
+// heartbeat tells the parent that a long single case is still making progress (whole line, written directly).
+var lastBeat time.Time
+
+func heartbeat() {
+	if time.Since(lastBeat) > 2*time.Second {
+		lastBeat = time.Now()
+		os.Stdout.Write([]byte("HB\n"))
+	}
+}
+
 // runHammer: one race template repeated many times on one manager with lookup-level observation
 // (no handshakes, no saver). The raced operations run on persistent goroutines released by a spinning
 // barrier (so that they really start together), with a small varying stagger; after each repetition the
@@ -254,6 +264,7 @@ func runHammer(c Case) (res Result) {
 			defer wg.Done()
 			defer stop.Store(true)
 			for i := 0; time.Now().Before(deadline); i++ {
+				heartbeat()
 				tmp := filepath.Join(im.dir, "new.json")
 				os.WriteFile(tmp, docs[i%2].text(), 0o644)
 				os.Rename(tmp, im.path) // never truncate a file the manager may have mapped
@@ -277,6 +288,7 @@ func runHammer(c Case) (res Result) {
 		return
 	}
 	for rep := 1; rep <= c.Reps; rep++ {
+		heartbeat()
 		start := make(chan struct{})
 		var wg sync.WaitGroup
 		for _, line := range c.Race {
@@ -308,6 +320,7 @@ func runHammer(c Case) (res Result) {
 func runStarve(im *Impl, c Case, check func(int) bool) {
 	docs := []Doc{Doc(c.Ops[1]), Doc(c.Ops[2])}
 	for rep := 1; rep <= c.Reps; rep++ {
+		heartbeat()
 		tmp := filepath.Join(im.dir, "new.json")
 		os.WriteFile(tmp, docs[rep%2].text(), 0o644)
 		os.Rename(tmp, im.path)
